@@ -1,5 +1,7 @@
 import GoLucene.Proofs.SqlText
 import GoLucene.Proofs.SqlWide
+import GoLucene.Proofs.SqlQuery
+import GoLucene.Proofs.SqlQueryX
 /-
   C02 — the rendered SQL is one confined boolean expression; user text only in literals.
 
@@ -27,6 +29,16 @@ import GoLucene.Proofs.SqlWide
   so C02 is vacuous there.  Refutations (hand-built / decoded trees only — the parser never builds them since fix F4):
   non-finite floats print as bare words (`nan_not_confined`, `inf_not_confined`), a raw NUL string value skips the
   literal check (`raw_nul_rejected`), an empty IN list is a syntax error (`empty_in_rejected`).
+
+  OVER QUERIES (Proofs/SqlQuery.lean, SqlQueryX.lean), with NO hypothesis on the tree: for every query `lucene.Parse`
+  accepts, whenever the inline renderer succeeds and the nesting (including value nesting `a:(a:(…))`) stays within
+  PostgreSQL's parser stack, PostgreSQL reads the text as exactly one predicate `toAstX e` whose columns are fields and
+  whose constants are values of the query (`query_confined_full`).  The shapes beyond `confinedFilter` are exactly the
+  sub-query values (`a:(b AND c)` renders `"a" = ('b' AND 'c')`: still one predicate over the query's fields and
+  values — `grouped_value_outside`, `query_confined_iff`).  For the parameterized renderer the only exclusion is
+  "fields are columns" (`query_confined_param_full`), necessary by `numeric_field_query` (finding K-numfield-range
+  through the whole parser: `5:[1 TO 2]` gives `? >= ? AND ? <= ?` with three parameters).  `query_floats_finite`: the
+  parser never builds a non-finite float leaf (fix F4).
 
   Still outside a theorem: hand-built trees with an expression in field or value position, columns as patterns or
   bounds, nesting beyond PostgreSQL's stack (use the exact `_iff` forms) — decided by the executable specification
@@ -63,5 +75,12 @@ theorem parameterized_text_is_one_predicate (e : Expr) (sqlP : Bytes) (ps : List
     (hr : renderParam pgFns e = .ok (sqlP, ps)) :
     parseSql sqlP = SqlWide.toAstP e ∧ SqlWide.paramsP e = some ps :=
   SqlWide.render_parses_param e sqlP ps hc ht hd hr
+
+/-- C02 over QUERIES, no hypothesis on the tree: accepted ∧ rendered ∧ within PostgreSQL's stack ⇒ one confined predicate -/
+theorem accepted_query_renders_one_confined_predicate (env : Env) (s df : Bytes) (e : Expr) (t : Bytes)
+    (h : parseQuery env s df = .ok e) (hr : render pgFns e = .ok t) (hd : SqlQueryX.depthOKX e = true) :
+    parseSql t = SqlQueryX.toAstX e ∧ (∃ a, parseSql t = some a) ∧ ∀ a, parseSql t = some a →
+      (∀ c ∈ cols a, Prim.col c ∈ leaves e) ∧ (∀ k ∈ consts a, ∃ q ∈ leaves e, k ∈ SqlWide.rendersOfW q) :=
+  SqlQueryX.query_confined_full env s df e t h hr hd
 
 end GoLucene.C02
